@@ -1297,6 +1297,7 @@ int32 matrixRegisterSession(ssl_t *ssl)
     g_sessionTable[i].minVer = psEncodeVersionMin(GET_NGTD_VER(ssl));
 
     g_sessionTable[i].extendedMasterSecret = ssl->extFlags.extended_master_secret;
+    ssl->sessionCacheRef = 1;
 
     psUnlockMutex(&g_sessionTableLock);
     return i;
@@ -1312,6 +1313,15 @@ int32 matrixClearSession(ssl_t *ssl, int32 remove)
     uint32 i;
 
     if (ssl->sessionIdLen <= 0)
+    {
+        return PS_ARG_FAIL;
+    }
+    /* Only a connection that registered or resumed the entry holds a
+       reference on it. Without one, sessionId is merely what the client put
+       into its ClientHello (echoed for a ticket resumption, or not looked up
+       at all because the handshake failed earlier): acting on it would
+       release and wipe somebody else's entry. */
+    if (!ssl->sessionCacheRef)
     {
         return PS_ARG_FAIL;
     }
@@ -1331,6 +1341,7 @@ int32 matrixClearSession(ssl_t *ssl, int32 remove)
         return PS_LIMIT_FAIL;
     }
     psLockMutex(&g_sessionTableLock);
+    ssl->sessionCacheRef = 0; /* the reference is given back here */
     g_sessionTable[i].inUse -= 1;
     if (g_sessionTable[i].inUse == 0)
     {
@@ -1429,6 +1440,7 @@ int32 matrixResumeSession(ssl_t *ssl)
         SSL_HS_MASTER_SIZE);
     ssl->cipher = g_sessionTable[i].cipher;
     g_sessionTable[i].inUse += 1;
+    ssl->sessionCacheRef = 1;
     if (g_sessionTable[i].inUse == 1)
     {
         DLListRemove(&g_sessionTable[i].chronList);
@@ -1458,6 +1470,14 @@ int32 matrixUpdateSession(ssl_t *ssl)
         /* No table entry.  matrixRegisterSession was full of inUse entries */
         return PS_LIMIT_FAIL;
     }
+    /* No reference, no entry of ours (see matrixClearSession): e.g. a
+       connection resumed by its own session ticket that carried another
+       session's id in ClientHello.session_id must not store its master
+       secret and cipher under that id when it closes. */
+    if (!ssl->sessionCacheRef)
+    {
+        return PS_LIMIT_FAIL;
+    }
 #  ifdef USE_TLS_1_3
     /* A TLS 1.3 connection never owns an entry of this cache: its sessionId
        is the client's legacy_session_id, kept only to be echoed. Using it as
@@ -1478,7 +1498,11 @@ int32 matrixUpdateSession(ssl_t *ssl)
     If there is an error on the session, invalidate for any future use
  */
     psLockMutex(&g_sessionTableLock);
-    g_sessionTable[i].inUse += ssl->flags & SSL_FLAGS_CLOSED ? -1 : 0;
+    if (ssl->flags & SSL_FLAGS_CLOSED)
+    {
+        g_sessionTable[i].inUse -= 1;
+        ssl->sessionCacheRef = 0;
+    }
     if (g_sessionTable[i].inUse == 0)
     {
         /* End of the line */
